@@ -163,6 +163,19 @@ macro_rules! with_cb_enc {
         }
     };
 }
+/// the iterator form `decode_iid_symbols(n, codebook)`: (reported length, items)
+macro_rules! with_cb_dec_iter {
+    ($cb:expr, $x:expr, $n:expr) => {
+        match $cb {
+            Cb::Huff(_, dec, _) => { let it = $x.decode_iid_symbols($n, dec); let l = it.len(); (l, it.map(|r| r.map(|s| s as u64).map_err(|e| fe(&e))).collect::<Vec<Result<u64, String>>>()) }
+            Cb::Eg8 => { let k = ExpGolomb::<u8>::new(); let it = $x.decode_iid_symbols($n, &k); let l = it.len(); (l, it.map(|r| r.map(|s| s as u64).map_err(|e| fe(&e))).collect::<Vec<Result<u64, String>>>()) }
+            Cb::Eg16 => { let k = ExpGolomb::<u16>::new(); let it = $x.decode_iid_symbols($n, &k); let l = it.len(); (l, it.map(|r| r.map(|s| s as u64).map_err(|e| fe(&e))).collect::<Vec<Result<u64, String>>>()) }
+            Cb::Eg32 => { let k = ExpGolomb::<u32>::new(); let it = $x.decode_iid_symbols($n, &k); let l = it.len(); (l, it.map(|r| r.map(|s| s as u64).map_err(|e| fe(&e))).collect::<Vec<Result<u64, String>>>()) }
+            Cb::Eg64 => { let k = ExpGolomb::<u64>::new(); let it = $x.decode_iid_symbols($n, &k); let l = it.len(); (l, it.map(|r| r.map(|s| s as u64).map_err(|e| fe(&e))).collect::<Vec<Result<u64, String>>>()) }
+        }
+    };
+}
+
 macro_rules! with_cb_dec {
     ($cb:expr, |$c:ident| $e:expr) => {
         match $cb {
@@ -214,7 +227,8 @@ fn be<E: core::fmt::Debug>(e: E) -> String {
 fn exec_stack<W: BitArray + Default>(t: &BitsTrace, ctx: &mut Ctx, skip_inspect: bool) -> Result<Vec<u64>, Violation> {
     let cbs: Vec<Option<Cb>> = t.codebooks.iter().map(build_cb).collect();
     let mut c: St<W> = match t.backend {
-        BBackend::Vec => St::V(StackCoder::new()),
+        // `new()` or `with_bit_capacity()` (a function of the trace)
+        BBackend::Vec => St::V(if t.ops.len() & 1 == 1 { StackCoder::with_bit_capacity(t.ops.len() * 3) } else { StackCoder::new() }),
         BBackend::Small => St::Sm(StackCoder::new()),
         BBackend::Cursor => {
             let buf = vec![W::default(); 4096];
@@ -286,13 +300,29 @@ fn exec_stack<W: BitArray + Default>(t: &BitsTrace, ctx: &mut Ctx, skip_inspect:
             BitOp::Dec { cb } | BitOp::DecBatch { cb, .. } => {
                 let Some(Some(cbk)) = cbs.get(*cb) else { ctx.stats.hit("skipped-op"); continue };
                 let n = if let BitOp::DecBatch { n, .. } = op { *n } else { 1 };
+                // even batch sizes go through the iterator form `decode_iid_symbols`; the items
+                // are then compared one by one exactly like single decodes
+                let mut pre: std::collections::VecDeque<Result<u64, String>> = Default::default();
+                if n >= 2 && n % 2 == 0 {
+                    let (len, items) = on_st!(&mut c, x => with_cb_dec_iter!(cbk, x, n));
+                    ctx.stats.hit("op-dec-iid-iterator");
+                    if ctx.on("C16") && (len != n || items.len() != n) {
+                        viol!(ctx, "C16", "decode-iid-symbols-length", "decode_iid_symbols({}) reported len {} and yielded {} items", n, len, items.len());
+                    }
+                    pre = items.into();
+                }
+                let via_iter = !pre.is_empty();
                 for _ in 0..n {
                     let mut rc = r.clone();
                     let want = {
                         let mut it = std::iter::from_fn(|| rc.pop());
                         cbk.ref_decode(&mut it)
                     };
-                    let got: Result<u64, String> = on_st!(&mut c, x => with_cb_dec!(cbk, |k| x.decode_symbol(k)));
+                    let got: Result<u64, String> = if via_iter {
+                        match pre.pop_front() { Some(g) => g, None => break }
+                    } else {
+                        on_st!(&mut c, x => with_cb_dec!(cbk, |k| x.decode_symbol(k)))
+                    };
                     ctx.stats.hit("op-dec-symbol");
                     out.push(match &got { Ok(s) => *s, Err(_) => u64::MAX });
                     if ctx.on("C16") && got != want {
@@ -703,7 +733,15 @@ pub fn generate(seed: u64, prop: &str, _thorough: bool) -> BitsTrace {
             if queue { continue; }
             match shadow.pop() {
                 Some(Item::Bit) => ops.push(BitOp::Read),
-                Some(Item::Sym(cb)) => ops.push(BitOp::Dec { cb }),
+                Some(Item::Sym(cb)) => {
+                    // a run of symbols of the same codebook on top: sometimes pop several at once
+                    let mut run = 1;
+                    while run < 6 && matches!(shadow.last(), Some(Item::Sym(c2)) if *c2 == cb) && rng.chance(2, 3) {
+                        shadow.pop();
+                        run += 1;
+                    }
+                    if run > 1 { ops.push(BitOp::DecBatch { cb, n: run }) } else { ops.push(BitOp::Dec { cb }) }
+                }
                 None => {
                     if rng.chance(1, 4) { ops.push(BitOp::Read); }
                 }
